@@ -17,16 +17,30 @@ use crate::{
 };
 
 pub struct ShareOp<'a, Item, Err, Source>(
-  MutRc<InnerShareOp<Source, Subject<'a, Item, Err>>>,
+  MutRc<
+    InnerShareOp<
+      Source,
+      Subject<'a, Item, Err>,
+      MutRc<Option<BoxSubscription<'a>>>,
+    >,
+  >,
 );
 
 pub struct ShareOpThreads<Item, Err, Source>(
-  MutArc<InnerShareOp<Source, SubjectThreads<Item, Err>>>,
+  MutArc<
+    InnerShareOp<
+      Source,
+      SubjectThreads<Item, Err>,
+      MutArc<Option<BoxSubscriptionThreads>>,
+    >,
+  >,
 );
 
-enum InnerShareOp<Source, Subject> {
+enum InnerShareOp<Source, Subject, Connection> {
   Connectable(ConnectableObservable<Source, Subject>),
-  Connected(Subject),
+  // the subject every subscriber listens to, and the subscription of that
+  // subject to the source.
+  Connected(Subject, Connection),
 }
 
 macro_rules! impl_trivial {
@@ -51,10 +65,11 @@ impl_trivial!(ShareOp, MutRc, 'a);
 impl_trivial!(ShareOpThreads, MutArc);
 
 macro_rules! impl_observable_methods {
-  ($subject: ty) => {
+  ($subject: ty, $rc: ident, $box_unsub: ty) => {
     type Unsub = RefCountSubscription<
       $subject,
       <$subject as Observable<Item, Err, O>>::Unsub,
+      $rc<Option<$box_unsub>>,
     >;
 
     fn actual_subscribe(self, observer: O) -> Self::Unsub {
@@ -64,19 +79,28 @@ macro_rules! impl_observable_methods {
           let subject = c.fork();
 
           let subscription = subject.clone().actual_subscribe(observer);
-          let connected = InnerShareOp::Connected(subject.clone());
+          let connection = $rc::own(None);
+          let connected =
+            InnerShareOp::Connected(subject.clone(), connection.clone());
           let connectable = std::mem::replace(&mut *inner, connected);
 
           match connectable {
-            InnerShareOp::Connectable(connectable) => connectable.connect(),
+            InnerShareOp::Connectable(connectable) => {
+              let unsub = connectable.connect();
+              *connection.rc_deref_mut() = Some(<$box_unsub>::new(unsub));
+            }
             InnerShareOp::Connected { .. } => unreachable!(),
           };
 
-          RefCountSubscription { subject, subscription }
+          RefCountSubscription { subject, subscription, connection }
         }
-        InnerShareOp::Connected(subject) => {
+        InnerShareOp::Connected(subject, connection) => {
           let subscription = subject.clone().actual_subscribe(observer);
-          RefCountSubscription { subject: subject.clone(), subscription }
+          RefCountSubscription {
+            subject: subject.clone(),
+            subscription,
+            connection: connection.clone(),
+          }
         }
       }
     }
@@ -89,8 +113,9 @@ where
   Err: Clone,
   O: Observer<Item, Err> + 'a,
   S: Observable<Item, Err, Subject<'a, Item, Err>>,
+  S::Unsub: 'a,
 {
-  impl_observable_methods!(Subject<'a, Item, Err>);
+  impl_observable_methods!(Subject<'a, Item, Err>, MutRc, BoxSubscription<'a>);
 }
 
 impl<'a, S, Item, Err> ObservableExt<Item, Err> for ShareOp<'a, Item, Err, S> where
@@ -104,28 +129,38 @@ where
   Err: Clone,
   O: Observer<Item, Err> + Send + 'static,
   S: Observable<Item, Err, SubjectThreads<Item, Err>>,
+  S::Unsub: Send + 'static,
 {
-  impl_observable_methods!(SubjectThreads< Item, Err>);
+  impl_observable_methods!(
+    SubjectThreads<Item, Err>,
+    MutArc,
+    BoxSubscriptionThreads
+  );
 }
 
 impl<S, Item, Err> ObservableExt<Item, Err> for ShareOpThreads<Item, Err, S> where
   S: ObservableExt<Item, Err>
 {
 }
-pub struct RefCountSubscription<Subject, U> {
+pub struct RefCountSubscription<Subject, U, C> {
   subject: Subject,
   subscription: U,
+  // the shared subject's subscription to the source
+  connection: C,
 }
 
-impl<U, Subject> Subscription for RefCountSubscription<Subject, U>
+impl<U, Subject, C> Subscription for RefCountSubscription<Subject, U, C>
 where
   Subject: Subscription + SubjectSize,
   U: Subscription,
+  C: Subscription,
 {
   fn unsubscribe(self) {
     self.subscription.unsubscribe();
     if self.subject.is_empty() {
-      self.subject.unsubscribe()
+      // the last subscriber left: stop listening to the source as well
+      self.subject.unsubscribe();
+      self.connection.unsubscribe();
     }
   }
 
